@@ -9,10 +9,10 @@ BATCH_INVS = ("TypeOK ConcurrencyBound WgCount AllSettledAtPost NoFakeSuccess At
 PLAN = {
     "C06": dict(mc_q=[("seq", 3, 1, 2, True), ("gated", 3, 2, 1, True), ("gatedcancel", 2, 2, 1, True), ("eres", 2, 2, 2, True), ("conc", 2, 2, 2, False)],
                 mc_t=[("seq", 4, 1, 2, True), ("gated", 4, 3, 1, True), ("gated", 3, 2, 2, True), ("gatedcancel", 3, 2, 2, True), ("conc", 3, 2, 2, False)],
-                gen_q=("continue,stop,cancel,single,empty,waves,storm,wait,cancelfeed,dup", 60), gen_t=("continue,stop,cancel,single,empty,waves,storm,wait,cancelfeed,dup", 1500)),
+                gen_q=("continue,stop,cancel,single,empty,waves,storm,wait,cancelfeed,dup,erritems", 60), gen_t=("continue,stop,cancel,single,empty,waves,storm,wait,cancelfeed,dup,erritems", 1500)),
     "C07": dict(mc_q=[("seq", 3, 1, 2, True), ("gated", 3, 2, 2, True), ("conc", 2, 2, 2, False)],
                 mc_t=[("seq", 4, 1, 3, True), ("gated", 3, 2, 2, True), ("gated", 4, 3, 1, True), ("conc", 3, 2, 2, False)],
-                gen_q=("continue,waves,storm,wait,rebudget,fbhold,dup,innerflow", 90), gen_t=("continue,waves,storm,wait,rebudget,fbhold,dup,innerflow", 2600)),
+                gen_q=("continue,waves,storm,wait,rebudget,fbhold,dup,innerflow,erritems", 90), gen_t=("continue,waves,storm,wait,rebudget,fbhold,dup,innerflow,erritems", 2600)),
     "C08": dict(mc_q=[("gated", 3, 2, 1, True), ("conc", 2, 2, 2, False)],
                 mc_t=[("gated", 4, 3, 1, True), ("conc", 3, 2, 2, False), ("conc", 3, 3, 1, False)],
                 gen_q=("barrier,continue,rerun,backoff,storm,longbatch", 60), gen_t=("barrier,continue,stop,rerun,backoff,storm,longbatch", 1000)),
@@ -24,13 +24,13 @@ PLAN = {
                 gen_q=("cancel,waitcancel,bigcancel", 120), gen_t=("cancel,waitcancel,bigcancel", 3000)),
     # batch parts of engine-family properties
     "C02": dict(mc_q=[("seq", 2, 1, 3, True), ("gated", 2, 2, 2, True)], mc_t=[("seq", 3, 1, 4, True), ("gated", 3, 2, 3, True)],
-                gen_q=("continue,stop,storm,waves,rebudget", 60), gen_t=("continue,stop,storm,waves,rebudget", 1500)),
+                gen_q=("continue,stop,storm,waves,rebudget,erritems", 60), gen_t=("continue,stop,storm,waves,rebudget,erritems", 1500)),
     "C03": dict(mc_q=[("empty", 0, 2, 1, True)], mc_t=[("empty", 0, 2, 1, True), ("seq", 2, 1, 1, True)],
                 gen_q=("empty,single", 60), gen_t=("empty,single,continue", 600)),
     "C04": dict(mc_q=[("seq", 2, 1, 1, True)], mc_t=[("seq", 3, 1, 2, True), ("gated", 2, 2, 1, True)],
                 gen_q=("continue", 40), gen_t=("continue,stop", 800)),
     "C17": dict(mc_q=[("eres", 2, 2, 2, True), ("gatedcancel", 2, 2, 1, True)], mc_t=[("eres", 3, 2, 2, True), ("seq", 3, 1, 2, True), ("gatedcancel", 3, 2, 2, True)],
-                gen_q=("continue,stop,cancel,storm", 60), gen_t=("continue,stop,cancel,storm", 1500)),
+                gen_q=("continue,stop,cancel,storm,erritems", 60), gen_t=("continue,stop,cancel,storm,erritems", 1500)),
     "C18": dict(mc_q=[("seq", 2, 1, 1, True), ("empty", 0, 2, 1, True)], mc_t=[("seq", 3, 1, 2, True), ("empty", 0, 2, 1, True), ("gated", 2, 2, 1, True)],
                 gen_q=("empty,single,continue", 50), gen_t=("empty,single,continue,stop", 800)),
 }
